@@ -8,6 +8,7 @@ require (
 	github.com/couchbase/gocbcore/v10 v10.5.2
 	github.com/gofiber/fiber/v2 v2.52.5
 	github.com/google/uuid v1.6.0
+	github.com/mhmtszr/concurrent-swiss-map v1.0.8
 	github.com/prometheus/client_golang v1.20.5
 	github.com/prometheus/client_model v0.6.1
 	github.com/sirupsen/logrus v1.9.3
@@ -37,7 +38,6 @@ require (
 	github.com/mattn/go-colorable v0.1.13 // indirect
 	github.com/mattn/go-isatty v0.0.20 // indirect
 	github.com/mattn/go-runewidth v0.0.15 // indirect
-	github.com/mhmtszr/concurrent-swiss-map v1.0.8 // indirect
 	github.com/modern-go/concurrent v0.0.0-20180306012644-bacd9c7ef1dd // indirect
 	github.com/modern-go/reflect2 v1.0.2 // indirect
 	github.com/munnerz/goautoneg v0.0.0-20191010083416-a7dc8b61c822 // indirect
@@ -75,3 +75,5 @@ replace github.com/Trendyol/go-dcp => /repo
 replace github.com/couchbase/gocbcore/v10 => ./build/third_party/gocbcore
 
 replace github.com/asaskevich/EventBus => ./build/third_party/EventBus
+
+replace github.com/mhmtszr/concurrent-swiss-map => ./build/third_party/csmap
